@@ -632,6 +632,89 @@ func c14Hoisting(r *ev.Recorder) {
 	}
 }
 
+// c14Reentrant: the statement-method analogue of c14Hoisting. A callback handed to s.XFunc also
+// appends to s itself (the group it fills is attached to s only when XFunc returns), or panics
+// (the caller recovers and goes on using s): s must end up as with s.Add(XFunc(cb)), the package
+// function form.
+func c14Reentrant(r *ev.Recorder) {
+	for i := 0; i < stmtType.NumMethod(); i++ {
+		m := stmtType.Method(i)
+		if !strings.HasSuffix(m.Name, "Func") || m.Type.NumIn() != 2 || m.Type.In(1) != groupFunc {
+			continue
+		}
+		fn, ok := apiFuncs[m.Name]
+		if !ok {
+			continue
+		}
+		for _, mode := range []string{"also appends to the receiver", "panics after adding an item"} {
+			build := func(method bool) jh.Outcome {
+				s := jen.Id("a")
+				cb := func(inner *jen.Group) {
+					inner.Id("x")
+					if mode[0] == 'p' {
+						panic("callback failed")
+					}
+					s.Id("hoisted")
+				}
+				if method {
+					call(reflect.ValueOf(s).MethodByName(m.Name), []reflect.Value{reflect.ValueOf(cb)}, false)
+				} else if rv, p := call(reflect.ValueOf(fn), []reflect.Value{reflect.ValueOf(cb)}, false); p == nil {
+					s.Add(rv.Interface().(*jen.Statement))
+				}
+				s.Id("after")
+				return jh.Raw(s)
+			}
+			a, b := build(true), build(false)
+			r.Eval(2)
+			desc := "s." + m.Name + "(f) vs s.Add(" + m.Name + "(f)) where f " + mode
+			r.Distinct(desc)
+			if a.Key() != b.Key() {
+				r.Violate(ev.Violation{Signature: "c14:reentrant:" + m.Name, What: fmt.Sprintf("%s: %q vs %q", desc, a, b), Case: ev.JSON(c14Case{Kind: "hoisting", Name: m.Name, Desc: desc})})
+			}
+		}
+	}
+}
+
+// c14LateMaps: a tag map handed to the three forms of Tag while empty (or with one key) and
+// filled afterwards - the forms keep the caller's map or they copy it, but all alike.
+func c14LateMaps(r *ev.Recorder) {
+	for _, start := range []map[string]string{{}, {"a": "1"}, nil} {
+		for _, late := range []map[string]string{{"k": "v"}, {"a": "2", "b": "3"}, {}} {
+			var outs []string
+			for form := 0; form < 3; form++ {
+				var m map[string]string
+				if start != nil {
+					m = map[string]string{}
+					for k, v := range start {
+						m[k] = v
+					}
+				}
+				var st *jen.Statement
+				switch form {
+				case 0:
+					st = jen.Id("F").Int().Add(jen.Tag(m))
+				case 1:
+					st = jen.Id("F").Int().Tag(m)
+				case 2:
+					st = jen.Id("F").Int().Add(jen.CustomFunc(jen.Options{}, func(g *jen.Group) { g.Tag(m) }))
+				}
+				if m != nil {
+					for k, v := range late {
+						m[k] = v
+					}
+				}
+				outs = append(outs, jh.Raw(jen.Struct(st)).Key())
+			}
+			r.Eval(3)
+			desc := fmt.Sprintf("Tag(%v) as function / method / Group method, the map then extended by %v", start, late)
+			r.Distinct(desc)
+			if outs[0] != outs[1] || outs[1] != outs[2] {
+				r.Violate(ev.Violation{Signature: "c14:late-map:Tag", What: fmt.Sprintf("%s: function form %q, method form %q, Group form %q", desc, outs[0], outs[1], outs[2]), Case: ev.JSON(c14Case{Kind: "hoisting", Name: "Tag", Desc: desc})})
+			}
+		}
+	}
+}
+
 type c14Case struct {
 	Kind  string `json:"kind"`
 	Name  string `json:"name"`
@@ -649,7 +732,7 @@ func runC14(r *ev.Recorder) {
 		"(strings, Code, ...Code lists of 0-3 items incl. Null() and two paths with the same guessed alias, callbacks, tag maps, Options, literals). For each: package function (from the generated list of the tree's exported functions), "+
 		"method on a fresh and on a non-empty *Statement, *Group method (appends exactly one item, identical to the returned statement; appending to the result never changes an argument), "+
 		"raw renderings byte-equal across forms; GoString / Render / RenderWithFile(fresh File) agree; ...Func variants equal their variadic form; every callback counter == 1 when the constructing call returns and unchanged after three renders. "+
-		"Runs on a single goroutine, in one process, so that hidden state shared by stand-alone renders would show. distinct_nontrivial = distinct (construct, argument combination) cases", len(cs), names)
+		"Re-entrant callbacks: a callback that also appends to the receiver / enclosing group, or panics and is recovered, leaves the same statement behind in the method and the function form; a tag map filled after Tag(m) was called shows alike in all three forms. Runs on a single goroutine, in one process, so that hidden state shared by stand-alone renders would show. distinct_nontrivial = distinct (construct, argument combination) cases", len(cs), names)
 	r.Assume = []string{"argument values outside the tiny domains are outside the bound", "DictFunc returns a Dict, not a statement: its callback count is checked separately"}
 	if len(missing) > 0 {
 		r.Note("constructs_without_synthesised_arguments", missing)
@@ -676,6 +759,8 @@ func runC14(r *ev.Recorder) {
 	c14SharedSlices(r)
 	c14SpareCapacity(r)
 	c14Hoisting(r)
+	c14Reentrant(r)
+	c14LateMaps(r)
 	// DictFunc
 	n := 0
 	d := jen.DictFunc(func(d jen.Dict) { n++; d[jen.Lit(1)] = jen.Lit(2) })
